@@ -29,28 +29,3 @@ SPEC = {
 }
 
 
-
-def run(tier, seed, replay=None):
-    """Generic flow; findings proposed in patches/C13-known.jsonl that are not yet in KNOWN_FINDINGS.jsonl
-    count as known as well (duplicates are ignored)."""
-    import json, os
-    from vlib import runner, common as C
-    base = C.known_findings
-
-    def with_proposed():
-        res = base()
-        have = {(k.get("property"), k.get("signature")) for k in res}
-        p = os.path.join(C.VERIF, "patches", "C13-known.jsonl")
-        if os.path.exists(p):
-            for l in open(p):
-                l = l.strip()
-                if l:
-                    k = json.loads(l)
-                    if (k.get("property"), k.get("signature")) not in have:
-                        res.append(k)
-        return res
-    C.known_findings = with_proposed
-    try:
-        return runner.run(SPEC, tier, seed, replay)
-    finally:
-        C.known_findings = base
